@@ -600,6 +600,29 @@ func runC07(c *Ctx) {
 		})
 		c.Count(fmt.Sprintf("structured_n%d", n), int64(len(gs)))
 	}
+	// graph6 above n = 4095 (the top six bits of the 18-bit size field): a few sparse edge sets, dense representation
+	for _, n := range []int{4095, 4096, 4097, 5000} {
+		gs := structuredBig(n, false)
+		var small []*EG
+		for _, g := range gs {
+			if len(g.Edges) <= 2 {
+				small = append(small, g)
+			}
+		}
+		if !c.Thorough() && len(small) > 4 {
+			small = small[:4]
+		}
+		c.parFor(int64(len(small)), 1, func(lo, hi int64) {
+			for _, g := range small[lo:hi] {
+				for _, codec := range []string{"graph6", "sparse6"} {
+					cc := codecCase{Codec: codec, N: n, Edges: g.Edges, Rep: "dense"}
+					c.Check(func() *Failure { return evalCodec(cc) })
+					c.Nontrivial(1)
+				}
+			}
+		})
+		c.Count(fmt.Sprintf("structured_graph6_n%d", n), int64(len(small)))
+	}
 	for _, n := range []int{258047, 258048} {
 		gs := structuredBig(n, false)
 		var small []*EG
